@@ -375,6 +375,14 @@ func (p *Plugin) Start(config pipeline.AnyConfig, params *pipeline.ActionPluginP
 	p.config = config.(*Config)
 	p.logger = params.Logger
 
+	// the bucket id of an event is its time divided by the interval, and the ring has buckets_count slots
+	if p.config.BucketInterval_ <= 0 {
+		p.logger.Fatalf("bucket_interval must be > 0, passed: %q", p.config.BucketInterval)
+	}
+	if p.config.BucketsCount <= 0 {
+		p.logger.Fatalf("buckets_count must be > 0, passed: %d", p.config.BucketsCount)
+	}
+
 	distrCfg := p.config.LimitDistribution.toInternal()
 	ld, err := parseLimitDistribution(distrCfg, p.config.DefaultLimit)
 	if err != nil {
